@@ -131,9 +131,15 @@ class Harness(object):
             if name.startswith('e') and name[1:].isdigit() and int(name[1:]) in fins:
                 await fins[int(name[1:])]()
 
-        self.machine = cls(model=self.models, states=['s%d' % s for s in range(case['nstates'])],
+        # registration: 0 = models handed to the constructor (added one at a time), 1 = machine built without a
+        # model, then ONE add_model([m0, m1, ...]) call for all of them
+        one_call = bool(case.get('reg', 0))
+        self.machine = cls(model=None if one_call else self.models,
+                           states=['s%d' % s for s in range(case['nstates'])],
                            initial='s0', queued=queued, send_event=True, auto_transitions=False,
                            finalize_event=[fin_rec] if any(e['fin'] is not None for e in case['events']) else [])
+        if one_call:
+            self.machine.add_model(list(self.models))
         for mod, s0 in zip(self.models, case['models']):
             self.machine.set_state('s%d' % s0, mod)
         for ev, e in enumerate(case['events']):
@@ -388,7 +394,7 @@ def gen(rng, i, tier):
     for _ in range(ncb + 2):
         sched += list(range(nev))
     return dict(cls=i % 2, queued=queued, nstates=nstates, models=[rng.randrange(nstates) for _ in range(nmodels)],
-                events=events, top=top, protected=protected, schedule=sched)
+                events=events, top=top, protected=protected, schedule=sched, reg=(i // 2) % 2)
 
 
 def in_envelope(case):
@@ -415,7 +421,8 @@ def in_envelope(case):
 
 # ------------------------------------------------------------------ metadata
 RULE = ('cases = 2-4 concurrently awaited triggers (ensure_future) on 1-3 models of an AsyncMachine / '
-        'HierarchicalAsyncMachine (flat configurations, alternating), queued False/True/"model", 2-3 states, every event '
+        'HierarchicalAsyncMachine (flat configurations, alternating; models handed to the constructor or registered by ONE '
+        'add_model([...]) call after construction, alternating), queued False/True/"model", 2-3 states, every event '
         'with 1-2 transition candidates whose prepare / condition / before / after callbacks and the finalize callback '
         'each suspend on a future owned by the harness; 0-2 further events are awaited from inside callbacks (own call '
         'chain), callbacks may raise or call remove_model, tasks may be listed in protected_tasks, sources may exclude '
@@ -470,6 +477,7 @@ def stats(case, obs, dist):
         dist[k] = dist.get(k, 0) + n
     inc('queued_%s' % ['False', 'True', 'model'][case['queued']])
     inc('cls_%s' % ['AsyncMachine', 'HierarchicalAsyncMachine'][case['cls']])
+    inc('models_registered_by_%s' % ('one_add_model_call' if case.get('reg', 0) else 'constructor'))
     inc('top_triggers_%d' % len(case['top']))
     inc('nested_triggers', len(case['events']) - len(case['top']))
     if st is None:
@@ -672,7 +680,8 @@ def extra_checks(tier, seed):
     out = []
     total = bad = 0
     first = None
-    for prog in small_programs(tier):
+    for pi, prog in enumerate(small_programs(tier)):
+        prog['reg'] = pi % 2
         counts = {}
         for ev, e in enumerate(prog['events']):
             counts[ev] = len(all_cbs(e)) + (1 if ev in prog['top'] else 0)
